@@ -59,3 +59,10 @@ CHECKS["C01"] = dict(
  text="Every control-flow skeleton over {assignment, call, break, continue, return, assert / zero-divisor / index faults, if, if/else, else-if chains, while, from-loops with to/through, step, anonymous / fresh / colliding counter}: quick = all shapes of depth <=2 with default parameters (function, module-level and one-level-recursion variants), all spines of nesting depth <=5, every single parameter deviation at depth <=2 (6 conditions, 4 iteration counts, 4 bound pairs, to/through, 3 steps, 3 counter kinds, 3 fault kinds), all ordered pairs of depth-1 compounds in a function and in a loop body; thorough adds depth 3 and 4, double deviations, depth-3 single deviations and long (>=80 statement) sequences. Every block is framed by probes printing a site id and all live counters, so stdout is the path; each function is called with p = 0, 1, 2. Oracle: the reference interpreter's exact lines and success / failure point.",
  note="The reference interpreter (mcheck/lang/refint.py) is the semantics; it is validated on the unchanged tree by this check itself (tens of thousands of agreeing traces). Any non-zero exit counts as the prescribed failure. Shapes follow rule 1 of DESIGN 3.4 (one arbitrary child per compound).",
  design_ref="DESIGN.md section 4, C01")
+
+CHECKS["C12"] = dict(
+ category="model_checking",
+ technique="bounded exhaustive enumeration of optional-handling programs (payload x carrier x nil/present x construct x position), each one a reference-model trace replayed on the real CLI",
+ text="All combinations of payload type {int, str, [int...], class}, carrier {variable, parameter, function result, list element, field, built-in result, literal}, nil | present, construct {== nil in both operand orders, != nil, get, (x) or y with a logging fallback, chained or, ?= as statement / expression value / if condition / while condition, present == plain in both orders}, position {declaring block, nested block, else block, doubly nested block, loop body, nested function} and ?= target declared in the same or the enclosing block (about 4 800 expressible programs). Oracle: reference interpreter (exact stdout, success/failure); a failing `get` must be a run-time error naming file and line of that `get` with a column inside it; the `or` fallback must not be evaluated when the value is present.",
+ note="Objects are observed through a field. Programs the type checker rejects (e.g. chained `or`, list == fixed-list literal) are counted as rejected, not explored.",
+ design_ref="DESIGN.md section 4, C12")
